@@ -41,6 +41,8 @@ def small_replies():
 
 def random_wf_reply(rng, big=False):
     code = rng.range(100, 599)
+    if code == 421:
+        code = 422      # 421 makes the client close the connection (C13): it can only be the last reply of a session
     def text(maxlen):
         n = rng.choice([0, 1, 3, 10, 40]) if not big else rng.choice([8150, 8180, 8184, 8185])
         n = min(n, maxlen)
